@@ -1219,7 +1219,10 @@ def do_action(ws, action, sim):
         raise HarnessHang("unknown action %r" % (action,))
 
 
-TERMINAL_ACTIONS = ("break", "raise", "gen_close", "with_exit", "hold", "gen_close_other_thread", "drop_in_other_thread")
+TERMINAL_ACTIONS = ("break", "raise", "gen_close", "with_exit", "with_exit_long_text", "hold", "gen_close_other_thread",
+                    "drop_in_other_thread")
+# the text of the exception that leaves a with-block: short, or long with multi-byte and format characters
+LONG_EXCEPTION_TEXT = "handler failed: \u00e9\u20ac {} %s {0!r} " * 12
 
 
 def make_ws(scenario):
@@ -1546,7 +1549,7 @@ def _drive_inner(ws, scenario, sim, tr, on_event, release=None, companion=None):
     fired = [False] * len(rules)
     counts = {}
     msg_ord = -1
-    use_with = any(a[0] == "with_exit" for r in rules for a in r["do"])
+    use_with = any(a[0] in ("with_exit", "with_exit_long_text") for r in rules for a in r["do"])
     gen = ws.connect(**copts)
     if release is not None and release[0] == "after_connect":
         release[1]()
@@ -1673,10 +1676,10 @@ def _drive_inner(ws, scenario, sim, tr, on_event, release=None, companion=None):
                 # what a for-loop does when its body raises: the generator is
                 # simply dropped
                 pass
-            elif abandon == "with_exit":
+            elif abandon in ("with_exit", "with_exit_long_text"):
                 try:
                     with ws:
-                        raise AppRaise("handler failed inside with-block")
+                        raise AppRaise("handler failed inside with-block" if abandon == "with_exit" else LONG_EXCEPTION_TEXT)
                 except AppRaise:
                     pass
         except HarnessSignal as sig:
